@@ -70,12 +70,25 @@ var smallPerOp = map[string]int64{}
 // case kept per key is the first of the enumeration, independent of scheduling). overlap < 0: a
 // table-built family, every case is entered into the `seen` hash set; overlap >= 0: a big family.
 func runFamily(r *vk.Run, name string, n int, overlap int, gen func(i int) Case) {
+	runFamily1(r, name, n, overlap, gen)
+	// the same cases through each rich client configuration (table-sized families only; the two
+	// multi-million sweeps have reduced variants of their own)
+	if n <= 1100000 && !strings.Contains(name, "@") {
+		for _, cfg := range richCfgs {
+			cfg := cfg
+			runFamily1(r, name+"@"+cfgNames[cfg], n, -2, func(i int) Case { c := gen(i); c.Cfg = cfg; return c })
+		}
+	}
+}
+
+func runFamily1(r *vk.Run, name string, n int, overlap int, gen func(i int) Case) {
 	if only := os.Getenv("C07_ONLY"); only != "" && !strings.Contains(name, only) { // development aid
 		r.NotExhaustive("C07_ONLY=" + only + ": other families skipped")
 		return
 	}
 	start := time.Now()
-	small := overlap < 0
+	small := overlap == -1
+	rerun := overlap == -2 // the same cases through another client configuration: evaluations only, not hashed, not added to distinct
 	blocks := (n + blockSize - 1) / blockSize
 	results := make([][]vk.WorkerViolation, blocks)
 	var verdicts [3]atomic.Int64
@@ -109,7 +122,7 @@ func runFamily(r *vk.Run, name string, n int, overlap int, gen func(i int) Case)
 			if small {
 				hashes = append(hashes, caseHash(&c))
 				hashOps = append(hashOps, c.Op)
-			} else if i == 0 {
+			} else if i == 0 && !rerun {
 				opsMu.Lock()
 				ops[c.Op] = 0
 				opsMu.Unlock()
@@ -641,6 +654,15 @@ func enumerate(r *vk.Run) {
 			return Case{Op: "SetDoorPasscodes", ID: baseID, N: append([]int64{door}, l...)}
 		})
 
+		// through the rich configurations: doors 0..255 x every list of length 0..3
+		for _, cfg := range richCfgs {
+			cfg := cfg
+			runFamily1(r, "SetDoorPasscodes/doors-x-lists@"+cfgNames[cfg], 256*156, -2, func(i int) Case {
+				door, l := int64(i%256), lists[i/256]
+				return Case{Op: "SetDoorPasscodes", Cfg: cfg, ID: baseID, N: append([]int64{door}, l...)}
+			})
+		}
+
 		cases := []Case{}
 		// each list position over the 32-bit alphabet and 999990..1000010, others distinct valid codes
 		fine := append([]uint32{}, u32...)
@@ -964,7 +986,7 @@ func replay(r *vk.Run) {
 		var compact bytes.Buffer
 		json.Compact(&compact, raw)
 		fmt.Printf("case: %s\n", compact.String())
-		fmt.Printf("library:   error=%q driver-calls=%d (%s) panicked=%v request=%x\n", e, o.calls, cfgNames[c.Cfg%3], o.panicked, o.request)
+		fmt.Printf("library:   error=%q driver-calls=%d (%s) panicked=%v request=%x\n", e, o.calls, cfgNames[c.Cfg], o.panicked, o.request)
 		fmt.Printf("reference: %v %v\n", a.verdict, a.why())
 		if f := judge(&c, a, o); f != nil {
 			r.Violation(f.key, f.what, "api", c)
